@@ -290,6 +290,28 @@ int main(int argc, char **argv)
         rep().stat("cases_with_teams_around_the_processor_count", added);
     }
     {
+        // thread-count sweep: every nThreads 1..128 and a few above (a split of the rows computed from the team size must cover
+        // every row for every team size, not only the ones that divide the row count)
+        long long added = 0;
+        if (!args.num("light", 0))
+        for (int b = 0; b < NB; b++)
+        {
+#ifndef __AVX512__
+            if (b == B_AVX512) continue;
+#endif
+            std::vector<int> tl;
+            for (int t = 1; t <= 128; t++) tl.push_back(t);
+            for (int t : {161, 187, 196, 197, 255, 256, 257}) tl.push_back(t);
+            for (int t : tl)
+            {
+                cases.push_back({b, 64, 3, 1, t, 0, (int)(t % 3), 0});
+                if (t % 4 == 1) cases.push_back({b, 256, 2, 1, t, 2, (int)((t + 1) % 3), 0});
+                added++;
+            }
+        }
+        rep().stat("cases_from_thread_count_sweep", added);
+    }
+    {
         // batch sizes far above the column count ("any relation to num_cols"): one batch, and nothing may be sized by batch_size
         long long added = 0;
         for (int b = 0; b < NB; b++)
